@@ -65,7 +65,7 @@ Proof.
   intros d' t' H HI _ HV HE HL HRaw. unfold tstep in H. simpl in H.
   do 3 (match type of H with (if ?b then _ else _) = _ => destruct b end; [fin H|]).
   match type of H with (if ?b then _ else _) = _ => destruct b eqn:E2 end.
-  { dm H; [fin H|]. inv H. unfold val_ok. simpl. left.
+  { do 2 (dm H; [fin H|]). inv H. unfold val_ok. simpl. left.
     apply andb_true_iff in E2 as [E2 E3]. apply andb_true_iff in E2 as [E2 E4].
     destruct k; try discriminate. apply String.eqb_eq in E3. repeat split; auto. lia. }
   repeat dm H; fin H.
